@@ -435,6 +435,33 @@ Proof.
   intros HG H HL. unfold rw_out_of_scope in H. injection H as <-. simpl. rewrite HL, HG. reflexivity.
 Qed.
 
+Lemma exit_block_then_use F G ret z last rest inl L : tlookup z G = None -> unbound z L ->
+  wt_stmt F G ret inl L (SSeq (exit_block z last) (SSeq (SPrint true (EVar z)) rest)) = None.
+Proof.
+  intros HG HL. unfold exit_block. simpl.
+  destruct (wt_stmt F G ret inl ((z, (false, TInt)) :: L) last); simpl; rewrite ?HL, ?HG; reflexivity.
+Qed.
+
+Lemma rw_out_of_scope_return_ill F G ret z s0 s0' inl L : tlookup z G = None -> rw_out_of_scope_return ret z s0 = Some s0' -> unbound z L ->
+  wt_stmt F G ret inl L s0' = None.
+Proof. intros HG H HL. unfold rw_out_of_scope_return in H. injection H as <-. apply exit_block_then_use; assumption. Qed.
+
+Lemma rw_out_of_scope_loop_ill F G ret brk z s0 s0' inl L : tlookup z G = None -> rw_out_of_scope_loop brk z s0 = Some s0' -> unbound z L ->
+  wt_stmt F G ret inl L s0' = None.
+Proof.
+  intros HG H HL. unfold rw_out_of_scope_loop in H. destruct s0; try discriminate.
+  - injection H as <-.
+    set (b' := SSeq (exit_block z (if brk then SBreak else SContinue)) (SSeq (SPrint true (EVar z)) s0)).
+    assert (Hb : wt_stmt F G ret true L b' = None) by (apply exit_block_then_use; assumption).
+    clearbody b'. simpl. rewrite Hb. destruct (expr_has F G L c TBool); reflexivity.
+  - destruct (N.eqb x z) eqn:Q; [discriminate|]. injection H as <-.
+    assert (HL' : unbound z ((x, (false, TInt)) :: L)).
+    { apply unbound_cons; [exact HL|]. intros E. subst. rewrite N.eqb_refl in Q. discriminate. }
+    set (b' := SSeq (exit_block z (if brk then SBreak else SContinue)) (SSeq (SPrint true (EVar z)) s0)).
+    assert (Hb : wt_stmt F G ret true ((x, (false, TInt)) :: L) b' = None) by (apply exit_block_then_use; assumption).
+    clearbody b'. simpl. rewrite Hb. destruct (expr_has F G L lo TInt && expr_has F G L hi TInt); reflexivity.
+Qed.
+
 Lemma memb_false_notin (z : ident) (l : list ident) : memb z l = false -> ~ In z l.
 Proof.
   unfold memb. induction l as [|x r IH]; simpl; [tauto|]. intros H [E|Hin].
@@ -562,6 +589,12 @@ Proof.
   - apply Any; [discriminate|intros; eapply rw_void_variable_ill; eauto].
   - discriminate.
   - discriminate.
+  - destruct (fresh_for (p_arg pos) p d) eqn:Fr; [|discriminate].
+    apply (Nm _ _ _ Fr); [discriminate|]. intros. eapply rw_out_of_scope_return_ill; eauto. eapply fresh_global; eauto.
+  - destruct (fresh_for (p_arg pos) p d) eqn:Fr; [|discriminate].
+    apply (Nm _ _ _ Fr); [discriminate|]. intros. eapply rw_out_of_scope_loop_ill; eauto. eapply fresh_global; eauto.
+  - destruct (fresh_for (p_arg pos) p d) eqn:Fr; [|discriminate].
+    apply (Nm _ _ _ Fr); [discriminate|]. intros. eapply rw_out_of_scope_loop_ill; eauto. eapply fresh_global; eauto.
 Qed.
 
 (* ------------------------------------------------------------------ the program *)
